@@ -429,6 +429,10 @@ func writeComputedFieldExpression(w *formatting.IndentedWriter, expression dsl.E
 		case *dsl.BinaryExpression:
 			tail.Run(func() {
 				requiresParentheses := false
+				if _, ok := t.Left.(*dsl.UnaryExpression); ok && t.Operator == dsl.BinaryOpPow {
+					// the power operator binds tighter than a unary minus: (-a) ** b
+					requiresParentheses = true
+				}
 				// ** is right-associative in Python: (a ** b) ** c keeps its parentheses
 				if l, ok := t.Left.(*dsl.BinaryExpression); ok && (l.Operator.Precedence() < t.Operator.Precedence() ||
 					(l.Operator.Precedence() == t.Operator.Precedence() && t.Operator == dsl.BinaryOpPow)) {
